@@ -149,6 +149,12 @@ fn desc_case(rep: &mut Report, case: u64, rng: &mut Rng, world: &World, s: &str)
                 x.sort();
                 x
             };
+            // nth / skip / step_by / last / count agree with the plain walk
+            match guarded(std::panic::AssertUnwindSafe(|| super::c15::iter_protocol(&|| d.iter_pk(), &|k: String| k, &it))) {
+                Ok(None) => rep.count("iter_pk-protocol-checked"),
+                Ok(Some(m)) => rep.violation(case, format!("C20:iter_pk-protocol:{}", m.split(' ').next().unwrap_or("")), format!("Descriptor::iter_pk on {}: {}", body, m)),
+                Err(m) => rep.violation(case, format!("C20:panic:iterators:{}", norm_loc(&last_panic_loc())), format!("driving iter_pk panicked ({}) on {}", m, body)),
+            }
             if sorted(&it) != sorted(&toks) {
                 rep.violation(case, format!("C20:iter_pk-multiset:{}", kind), format!("iter_pk yields {:?} but the string form {} contains {:?}", it, body, toks));
             }
